@@ -577,6 +577,15 @@ func (g *GuardCtx) lenInvFacts(p Poly) []Fact {
 			if j := strings.Index(inner[i:], "{"); j >= 0 {
 				continue // the slice field was stored to in this function: invariant not assumed here
 			}
+			if strings.HasPrefix(gname, "^") {
+				// the partner is a field of the struct this one is embedded in: drop the embedded field's segment
+				j2, d := strings.LastIndex(base, "."), strings.Index(gname, ".")
+				if j2 < 0 || d < 0 {
+					continue
+				}
+				out = append(out, Fact{D: polySym(s).Sub(polySym(base[:j2] + "." + gname[d+1:])), Eq: true, Why: "len(" + k.String() + ") == " + gname[1:] + " of the embedding struct (derived invariant)"})
+				continue
+			}
 			out = append(out, Fact{D: polySym(s).Sub(polySym(base + "." + gname)), Eq: true, Why: "len(" + k.String() + ") == " + gname + " (derived invariant)"})
 		}
 	}
@@ -1089,6 +1098,67 @@ func DeriveLenInvariants(p *Prog, runPhase map[*ssa.Function]bool) *LenInvariant
 					names[st2.Field(fa2.Field).Name()] = true
 				}
 			}
+			// the struct is put together by a value constructor (`func newX(n int) X`) whose result every
+			// caller stores into an embedded field of the struct that keeps the count: the partner is a
+			// field of the embedding struct, written "^Outer.G"
+			if len(names) == 0 && len(L) == 1 {
+				if al, isAl := fa.X.(*ssa.Alloc); isAl && func() bool { _, ok := returnedByValue(fn, al); return ok }() {
+					prmIdx := -1
+					for i, prm := range fn.Params {
+						if isIntLike(prm.Type()) && pc.Of(prm).Equal(L) {
+							prmIdx = i
+						}
+					}
+					sites, complete := p.staticCallSites(fn)
+					if prmIdx >= 0 && complete && len(sites) > 0 {
+						cn := map[string]int{}
+						for _, site := range sites {
+							cv, isV := site.(ssa.Value)
+							cc := CallOf(site)
+							if !isV || cc == nil || prmIdx >= len(cc.Args) {
+								continue
+							}
+							caller := site.Parent()
+							cpc := NewPolyCtx(caller)
+							cpc.G = true
+							argP := cpc.Of(cc.Args[prmIdx])
+							for _, ref := range *cv.Referrers() {
+								st3, isSt := ref.(*ssa.Store)
+								if !isSt || st3.Val != cv {
+									continue
+								}
+								fa3, isFa := st3.Addr.(*ssa.FieldAddr)
+								if !isFa {
+									continue
+								}
+								ost := derefStruct(fa3.X.Type())
+								if ost == nil || !ost.Field(fa3.Field).Embedded() {
+									continue
+								}
+								seen := map[string]bool{}
+								for _, s2 := range cpc.stores {
+									fa2, ok := s2.Addr.(*ssa.FieldAddr)
+									if !ok || !isIntLike(s2.Val.Type()) || isTimeTime(s2.Val.Type()) || fa2.X != fa3.X {
+										continue
+									}
+									if cpc.Of(s2.Val).Equal(argP) {
+										nm := "^" + typeName(fa3.X.Type()) + "." + ost.Field(fa2.Field).Name()
+										if !seen[nm] {
+											seen[nm] = true
+											cn[nm]++
+										}
+									}
+								}
+							}
+						}
+						for nm, k := range cn {
+							if k == len(sites) {
+								names[nm] = true
+							}
+						}
+					}
+				}
+			}
 			if c.names == nil {
 				c.names = names
 			} else {
@@ -1117,6 +1187,11 @@ func DeriveLenInvariants(p *Prog, runPhase map[*ssa.Function]bool) *LenInvariant
 		sort.Strings(ns)
 		for _, n := range ns {
 			gk := FieldKey{k.Owner, n}
+			if strings.HasPrefix(n, "^") {
+				if i := strings.Index(n, "."); i > 0 {
+					gk = FieldKey{n[1:i], n[i+1:]}
+				}
+			}
 			bad := ""
 			for _, w := range writersOf[gk] {
 				if runPhase[w] {
